@@ -209,10 +209,14 @@ func doOp(o lib.Obj, op, p int) string {
 		return fmt.Sprint("sev=", n, s, pan != nil)
 	case 2:
 		err, pan := o.GetError()
-		return fmt.Sprint("err=", lib.ErrClass(err), "|", lib.ErrText(err), pan != nil)
+		res := fmt.Sprint("err=", lib.ErrClass(err), "|", lib.ErrText(err), lib.Annotated(err), pan != nil)
+		lib.Annotate(err) // the client decorates the error value it received; later errors must not show it
+		return res
 	case 3:
 		s, err, pan := o.Encode()
-		return fmt.Sprint("enc=", s, "|", lib.ErrClass(err), pan != nil)
+		res := fmt.Sprint("enc=", s, "|", lib.ErrClass(err), "|", lib.ErrText(err), lib.Annotated(err), pan != nil)
+		lib.Annotate(err)
+		return res
 	case 4:
 		s, pan := o.String()
 		return fmt.Sprint("str=", s, pan != nil)
@@ -379,6 +383,16 @@ func runHistory(w *W, st *c15stats, src objSource, hseed uint64, n int) {
 		w.Violate(Violation{Monitor: "C15", Check: "two objects obtained the same way have identical exported fields", Case: c, Observed: a0, Expected: aTwin})
 	}
 	n0 := namesFingerprint(o)
+	if hseed%97 == 0 {
+		// a hot object: thousands of score / severity queries (sorting an inventory by score) before anything else
+		for i := 0; i < 5000; i++ {
+			o.Score()
+			if i%3 == 0 {
+				o.Severity()
+			}
+		}
+		w.Count("objects_queried_5000_times_first")
+	}
 	first := map[int]string{}
 	var trace []string
 	for i := 0; i < n; i++ {
@@ -671,6 +685,71 @@ func runC15(r *Run) int {
 		}
 	})
 	r.Extra("objects_kept_alive_and_observed_at_the_end", len(live))
+	// two objects returned by consecutive Decode calls (same base metrics, or the same string) are independent:
+	// overwriting every exported field of one leaves what the other reports unchanged.  One goroutine, so that
+	// the two calls really are consecutive for the library.
+	{
+		w := r.NewW()
+		rng := r.Rng(4242)
+		for i, n := 0, r.Pick(4000, 40000); i < n; i++ {
+			k := lib.Kind(rng.IntN(int(lib.NKinds)))
+			level := k.Level()
+			var sa, sb string
+			if k.V2() {
+				va := seed2(rng, level)
+				vb := va
+				if level >= spec.LTemp && rng.IntN(4) > 0 {
+					temporal2(&vb, rng.IntN(nTemp2))
+				}
+				if level == spec.LEnv {
+					env2(&vb, rng.IntN(nEnv2))
+				}
+				sa, sb = va.String(), vb.String()
+			} else {
+				va := seed3(rng, level)
+				vb := va
+				if rng.IntN(4) > 0 {
+					randOptional3(&vb, level, rng)
+				}
+				sa, sb = render3(&va, level, nil), render3(&vb, level, nil)
+			}
+			nilRecv := rng.IntN(3) == 0
+			twin, terr, _ := lib.Decode(k, sb, nilRecv)
+			if terr != nil || twin.IsNil() {
+				w.Count("object_unavailable")
+				continue
+			}
+			want := obsVector(twin)
+			first, second := sa, sb
+			if i%2 == 1 { // the later object is the one overwritten
+				first, second = sb, sa
+			}
+			o1, err1, _ := lib.Decode(k, first, nilRecv)
+			o2, err2, _ := lib.Decode(k, second, nilRecv)
+			if err1 != nil || err2 != nil || o1.IsNil() || o2.IsNil() {
+				w.Count("object_unavailable")
+				continue
+			}
+			victim, other := o1, o2
+			if i%2 == 1 {
+				victim, other = o2, o1
+			}
+			// victim was decoded from sa, other from sb
+			if rng.IntN(2) == 0 {
+				victim.Score()
+			}
+			lib.Scribble(victim, uint32(rng.Uint64()))
+			victim.Observe()
+			w.Eval(1)
+			w.Count("pairs_of_consecutively_decoded_objects_with_one_overwritten")
+			if got := obsVector(other); got != want {
+				c := decodeCase(k, sb, nilRecv)
+				c.Args = map[string]string{"decoded_next_to": sa, "then": "every exported field of the object decoded from decoded_next_to was overwritten"}
+				w.Violate(Violation{Monitor: "C15", Check: "objects returned by different Decode calls are independent: overwriting the exported fields of one does not change what the other reports", Case: c, Observed: clip(got, 600), Expected: clip(want, 600)})
+			}
+		}
+		w.Merge()
+	}
 	r.Phase("per-object histories")
 	// table probe after the workload
 	snap1, unstable1 := tableSnapshot(64)
@@ -811,6 +890,33 @@ func replayC15(r *Run, c Case) {
 		s1, u1 := tableSnapshot(64)
 		if s0 != s1 || len(u0)+len(u1) > 0 {
 			w.Violate(Violation{Monitor: "C15", Check: "table snapshot stable", Case: c, Observed: fmt.Sprint(firstDiffLine(s0, s1), u0, u1)})
+		}
+		return
+	}
+	if sa, ok := c.Args["decoded_next_to"]; ok {
+		k, sb := kindByName(c.Kind), c.GetInput()
+		twin, _, _ := lib.Decode(k, sb, c.NilRcv)
+		want := obsVector(twin)
+		for i := 0; i < 64; i++ {
+			first, second := sa, sb
+			if i%2 == 1 {
+				first, second = sb, sa
+			}
+			o1, _, _ := lib.Decode(k, first, c.NilRcv)
+			o2, _, _ := lib.Decode(k, second, c.NilRcv)
+			victim, other := o1, o2
+			if i%2 == 1 {
+				victim, other = o2, o1
+			}
+			if i%4 < 2 {
+				victim.Score()
+			}
+			lib.Scribble(victim, uint32(i*2654435761))
+			victim.Observe()
+			if got := obsVector(other); got != want {
+				w.Violate(Violation{Monitor: "C15", Check: "objects returned by different Decode calls are independent: overwriting the exported fields of one does not change what the other reports", Case: c, Observed: clip(got, 600), Expected: clip(want, 600)})
+				return
+			}
 		}
 		return
 	}
